@@ -519,12 +519,81 @@ class Flattener:
             for h in getattr(s, "handlers", []) or []:
                 h.body = self.flatten_block(h.body, ctx_fi, caller_names, stack, depth, resolve_ctx)
             rep = self.expand_stmt(s, rc, caller_names, stack, depth) if depth > 0 else None
+            if rep is None and depth > 0:
+                rep = self.hoist_nested(s, rc, ctx_fi, caller_names, stack, depth, resolve_ctx)
             if rep is None:
                 out.append(s)
             else:
                 out.extend(rep)
                 caller_names |= _names_stored(rep)  # later helpers must not reuse these names
         return out
+
+    def hoist_nested(self, s: ast.stmt, rc: FuncInfo, ctx_fi: FuncInfo, caller_names: set[str], stack: tuple[str, ...], depth: int,
+                     resolve_ctx: FuncInfo | None) -> list[ast.stmt] | None:
+        """a call of a new helper nested deeper inside the expression of a simple statement (`x = f(g(helper(a))[0])`,
+        `if a and ...` excluded) is evaluated into a temporary first, so that it can be inlined -- only when nothing with
+        an effect is evaluated before it in that statement and it is evaluated unconditionally"""
+        if isinstance(s, (ast.Expr, ast.Assign, ast.AugAssign, ast.AnnAssign, ast.Return)):
+            root = s.value
+        elif isinstance(s, ast.If):
+            root = s.test
+        elif isinstance(s, ast.Raise):
+            root = s.exc
+        else:
+            return None
+        if root is None:
+            return None
+        parents: dict[int, ast.AST] = {}
+        for p_ in ast.walk(root):
+            for c in ast.iter_child_nodes(p_):
+                parents[id(c)] = p_
+        cands = [x for x in ast.walk(root) if isinstance(x, ast.Call) and x is not root and self.inlinable_target(x, rc, stack) is not None]
+        cands.sort(key=lambda x: (getattr(x, "lineno", 0), getattr(x, "col_offset", 0)))
+        for call in cands:
+            # unconditional evaluation: no short-circuit / conditional / deferred context between the statement and the call
+            anc = []
+            cur: ast.AST | None = call
+            ok = True
+            while cur is not None and cur is not root:
+                par = parents.get(id(cur))
+                if par is None:
+                    break
+                if isinstance(par, ast.BoolOp) and par.values[0] is not cur:
+                    ok = False
+                if isinstance(par, ast.IfExp) and par.test is not cur:
+                    ok = False
+                if isinstance(par, (ast.Lambda, ast.ListComp, ast.SetComp, ast.DictComp, ast.GeneratorExp, ast.comprehension)):
+                    ok = False
+                if isinstance(par, ast.Compare) and par.left is not cur and len(par.ops) > 1:
+                    ok = False
+                anc.append(par)
+                cur = par
+            if not ok:
+                continue
+            # everything evaluated before the call must be effect-free: other calls positioned before it must be its ancestors
+            pos = (getattr(call, "lineno", 0), getattr(call, "col_offset", 0))
+            earlier = [x for x in ast.walk(root) if isinstance(x, (ast.Call, ast.Await, ast.Yield, ast.NamedExpr)) and x is not call
+                       and (getattr(x, "lineno", 0), getattr(x, "col_offset", 0)) < pos and not any(x is a for a in anc)
+                       and not any(x is y for y in ast.walk(call))]
+            if earlier:
+                continue
+            tmp = f"val_h{next(_counter)}"
+            first = ast.copy_location(ast.Assign(targets=[ast.Name(id=tmp, ctx=ast.Store())], value=call), s)
+            par = parents[id(call)]
+            for fld, val in ast.iter_fields(par):
+                if val is call:
+                    setattr(par, fld, ast.copy_location(ast.Name(id=tmp, ctx=ast.Load()), call))
+                elif isinstance(val, list):
+                    for i, v in enumerate(val):
+                        if v is call:
+                            val[i] = ast.copy_location(ast.Name(id=tmp, ctx=ast.Load()), call)
+            ast.fix_missing_locations(first)
+            rep = self.expand_stmt(first, rc, caller_names | {tmp}, stack, depth)
+            if rep is None:
+                rep = [first]
+            rest = self.flatten_block([s], ctx_fi, caller_names | {tmp} | _names_stored(rep), stack, depth, resolve_ctx)
+            return rep + rest
+        return None
 
     # ------------------------------------------------------------ table dispatch
     def _const_table(self, e: ast.AST, fi: FuncInfo) -> tuple[ast.Dict, str | None] | None:
